@@ -43,6 +43,8 @@ pub enum Step {
     /// drop the oldest handle held for this barrier
     DropHandle { slot: usize },
     DropBarrier { slot: usize },
+    /// drop the source's future (task abort / select! / timeout): what it triggered so far stays triggered
+    CancelSource(usize),
 }
 
 #[derive(Clone, Debug, Serialize, Deserialize)]
@@ -125,6 +127,10 @@ impl Property for C20 {
     }
 
     fn generate(rng: &mut Rng, _idx: u64, _tier: Tier) -> Scenario {
+        if rng.chance(1, 200) {
+            // mode 2: a long run of triggers that match nothing, inside one poll of a runtime-driven task
+            return Scenario { mode: 2, sources: vec![], schedule: vec![], fs_reads: rng.range(1, 600) as u32, fs_match: rng.bool(), fs_drop_after: None, fs_burst: 0, seed: rng.next_u64() };
+        }
         if rng.chance(1, 40) {
             return Scenario {
                 mode: 1,
@@ -179,8 +185,9 @@ impl Property for C20 {
         }
         for _ in 0..nsteps {
             let slot = rng.below(nslots as u64) as usize;
-            let st = match rng.weighted(&[40, 18, 16, 14, 8]) {
+            let st = match rng.weighted(&[40, 18, 16, 14, 8, 2]) {
                 0 => Step::PollSource(rng.below(ns as u64) as usize),
+                5 => Step::CancelSource(rng.below(ns as u64) as usize),
                 1 => {
                     if barriers[slot].is_some() {
                         Step::Wait { slot }
@@ -222,7 +229,11 @@ impl Property for C20 {
     fn run(sc: &Scenario, keep: bool) -> Report {
         let mut log = Log::new(keep);
         let mut rep = Report::default();
-        let r = catch(|| if sc.mode == 0 { run_exec(sc, &mut log, &mut rep) } else { run_fs(sc, &mut log, &mut rep) });
+        let r = catch(|| match sc.mode {
+            0 => run_exec(sc, &mut log, &mut rep),
+            2 => run_burst(sc, &mut log, &mut rep),
+            _ => run_fs(sc, &mut log, &mut rep),
+        });
         let violation = match r {
             Ok(v) => v,
             Err(p) => Some(Violation::new("Panic", format!("unexpected panic outside a source task: {p}"))),
@@ -254,6 +265,9 @@ impl Property for C20 {
         if sc.mode == 1 {
             return format!("fs reads={} match={} drop={:?}", sc.fs_reads, sc.fs_match, sc.fs_drop_after);
         }
+        if sc.mode == 2 {
+            return format!("burst of {} unmatched triggers in one poll of a host task, other barrier live={}", sc.fs_reads, sc.fs_match);
+        }
         sc.schedule
             .iter()
             .map(|s| match s {
@@ -262,6 +276,7 @@ impl Property for C20 {
                 Step::Wait { slot } => format!("wait{slot}"),
                 Step::DropHandle { slot } => format!("droph{slot}"),
                 Step::DropBarrier { slot } => format!("dropb{slot}"),
+                Step::CancelSource(i) => format!("cancel{i}"),
             })
             .collect::<Vec<_>>()
             .join(",")
@@ -283,6 +298,7 @@ async fn source_prog(ops: Vec<SrcOp>, progress: Rc<Cell<usize>>) {
 fn run_exec(sc: &Scenario, log: &mut Log, rep: &mut Report) -> Option<Violation> {
     let nslots = sc.schedule.iter().map(|s| match s {
         Step::Create { slot, .. } | Step::Wait { slot } | Step::DropHandle { slot } | Step::DropBarrier { slot } => *slot + 1,
+        Step::CancelSource(_) => 0,
         _ => 0,
     }).max().unwrap_or(0).max(1);
     // real
@@ -417,6 +433,25 @@ fn run_exec(sc: &Scenario, log: &mut Log, rep: &mut Report) -> Option<Violation>
                         class,
                         format!("step #{i}: after polling source {s} it is {:?} at op {real_prog}; the reference says {:?} at op {}", real_state, state[s], mprog[s]),
                     ));
+                }
+            }
+            Step::CancelSource(s) => {
+                if tasks.is_empty() {
+                    continue;
+                }
+                let s = *s % tasks.len();
+                if tasks[s].fut.is_some() {
+                    let suspended = state[s] == SrcState::Suspended;
+                    let unreported = mb.iter().any(|b| b.live && b.queue.iter().any(|(_, src)| *src == Some(s)));
+                    tasks[s].fut = None;
+                    state[s] = SrcState::Finished;
+                    log.ev(format!("#{i} cancel source {s} (suspended={suspended}, its report not yet taken by wait={unreported})"));
+                    log.tag("cancel");
+                    rep.faults.inc("source_cancelled");
+                    if suspended && unreported {
+                        nontrivial = true;
+                        rep.probes.inc("source_cancelled_while_suspended_before_its_report_was_taken");
+                    }
                 }
             }
             Step::Create { slot, react, values } => {
@@ -607,4 +642,57 @@ fn run_fs(sc: &Scenario, log: &mut Log, rep: &mut Report) -> Option<Violation> {
     rep.nontrivial = reads >= 2;
     rep.probes.inc("fs_corruption_hook_trigger");
     None
+}
+
+
+/// Mode 2: inside a turmoil host (a task driven by a tokio runtime, with its cooperative budget) `n`
+/// `trigger(v).await` calls in a row match no live barrier. They return immediately: the host never
+/// yields in the middle, so a sibling task spawned just before the run first runs after all `n`.
+fn run_burst(sc: &Scenario, log: &mut Log, rep: &mut Report) -> Option<Violation> {
+    let n = sc.fs_reads;
+    let mut b = turmoil::Builder::new();
+    b.rng_seed(sc.seed).epoch(std::time::UNIX_EPOCH + std::time::Duration::from_secs(1_600_000_000));
+    let mut sim = b.build();
+    let counter = Rc::new(Cell::new(0u32));
+    let seen: Rc<Cell<Option<u32>>> = Rc::new(Cell::new(None));
+    let (c2, s2) = (counter.clone(), seen.clone());
+    // a live barrier whose condition matches none of the values (half of the scenarios)
+    let other: Option<Barrier<u32>> = if sc.fs_match { Some(Barrier::new(|v: &u32| *v == 7)) } else { None };
+    sim.client("h", async move {
+        let (c3, s3) = (c2.clone(), s2.clone());
+        tokio::task::spawn_local(async move {
+            s3.set(Some(c3.get()));
+        });
+        for k in 0..n {
+            trigger(1000 + k).await;
+            c2.set(k + 1);
+        }
+        Ok(())
+    });
+    for _ in 0..4 {
+        match sim.step() {
+            Ok(true) => break,
+            Ok(false) => {}
+            Err(e) => return Some(Violation::new("SimError", format!("burst mode: step failed: {e}"))),
+        }
+    }
+    drop(other);
+    drop(sim);
+    log.ev(format!("burst of {n} unmatched triggers: sibling task first ran at count {:?}, final count {}", seen.get(), counter.get()));
+    log.tag("burst");
+    rep.probes.inc("burst_of_unmatched_triggers_in_one_task_poll");
+    if n > 128 {
+        rep.probes.inc("burst_longer_than_tokio_coop_budget");
+    }
+    rep.nontrivial = n > 128;
+    if counter.get() != n {
+        return Some(Violation::new("BlockedWithoutSuspend", format!("burst mode: only {} of {n} triggers that match no live barrier returned within 4 steps", counter.get())));
+    }
+    match seen.get() {
+        Some(k) if k == n => None,
+        other => Some(Violation::new(
+            "BlockedWithoutSuspend",
+            format!("burst mode: {n} triggers that match no live barrier ran in a row in one host task, yet a sibling task got to run after {other:?} of them: a trigger yielded although no Suspend barrier asked for it"),
+        )),
+    }
 }
